@@ -5,7 +5,7 @@ from .. import hx
 ID = "C01"
 LEVEL = "model_checking"
 BOUNDS = {
-    "quick": "two trains with 0..3 spikes each (all 16 size pairs) plus the asymmetric pairs (0|1|2)+5 in both orders, MRTS omitted and symbolic >= 0, "
+    "quick": "two trains with 0..3 spikes each (all 16 size pairs) plus the asymmetric pairs (0|1|2)+5 in both orders, MRTS omitted and symbolic >= 0, and 4+4 with MRTS omitted, "
              "backends py and pyx; all real spike times/edges incl. ties and spikes on the edges",
     "thorough": "two trains with 0..4 spikes each (all 25 size pairs) plus (0|1|2|3)+5 and 1+6 in both orders, MRTS omitted and symbolic >= 0, py and pyx",
 }
@@ -22,7 +22,7 @@ def configs(tier):
                     yield dict(name="%s-m%s-%d+%d" % (be, mk, n1, n2), backend=be, m=mk,
                                n1=n1, n2=n2, cost=4 ** (n1 + n2))
             # asymmetric pairs with one long train (code that only triggers from 4-5 spikes on)
-            for (n1, n2) in LONG[tier]:
+            for (n1, n2) in LONG[tier] + ([(4, 4)] if tier == "quick" and mk == "omit" else []):
                 yield dict(name="%s-m%s-%d+%d" % (be, mk, n1, n2), backend=be, m=mk, n1=n1, n2=n2,
                            cost=4 ** (min(n1, n2) + 3), split_forks=(8 if n1 + n2 >= 7 else None))
 
